@@ -9,8 +9,11 @@
 
   request (engine `walk`):
     walk <arch> <os> ctx:<r=v,..> valid:<all|-|r,..> stack:<none|base:hex> mods:<-|base:size:name,..> (sym:<module name>:<records>)*
-      records (`;`-separated, fields `|`-separated, `_` for a space inside rules):
+      records (`;`-separated, fields `|`-separated):
         F|addr|size|psize|name    P|addr|psize|name    C|addr|size|rules    A|addr|rules (belongs to the last C)
+        c|addr|size|<hex rules>   a|addr|<hex rules>
+      rule text: `C`/`A` carry it with `_` for a space (plain texts), `c`/`a` hex-encoded UTF-8 (any text a
+      symbol-file line can hold); leading blanks / tabs are dropped as the symbol-file parser drops them
   answer:
     frames:<trust>|ip=..|in=..|sp=..|m=<idx|->|f=<name@base/psize|->|v=<all|r=v,..>;...
 -/
